@@ -50,6 +50,7 @@ def _triple(x):
 
 
 EXT = {"double": _double, "triple": _triple}
+KN = [0.4, -0.3]  # knots handed to bs() through a name, as a numpy array that is not in increasing order
 
 
 def execute(payload):
@@ -64,7 +65,7 @@ def execute(payload):
         return guarded(lambda: [list(map(list, x)) if isinstance(x, list) else x for x in describe_model(model_description(payload["formula"]))])
     import numpy
 
-    ns = {"np": numpy}
+    ns = {"np": numpy, "kn": numpy.array(KN)}
     if payload.get("extra"):
         ns["ext"] = EXT[payload["extra"]]
     config["EVAL_UNSEEN_CATEGORIES"] = payload.get("mode", "error")
